@@ -402,12 +402,16 @@ def fit_origin(
                 f, rc_masked, qc0_meas_masked, popt_c, robust_steps, robust_thresh
             )
     else:
-        popt_r, _ = curve_fit(f, rc, qr0_meas)
-        popt_c, _ = curve_fit(f, rc, qc0_meas)
+        popt_r, _ = curve_fit(f, rc, qr0_meas.ravel())
+        popt_c, _ = curve_fit(f, rc, qc0_meas.ravel())
 
         if robust:
-            popt_r = perform_robust_fitting(f, rc, qr0_meas, popt_r, robust_steps, robust_thresh)
-            popt_c = perform_robust_fitting(f, rc, qc0_meas, popt_c, robust_steps, robust_thresh)
+            popt_r = perform_robust_fitting(
+                f, rc, qr0_meas.ravel(), popt_r, robust_steps, robust_thresh
+            )
+            popt_c = perform_robust_fitting(
+                f, rc, qc0_meas.ravel(), popt_c, robust_steps, robust_thresh
+            )
 
     qr0_fit = f(rc, *popt_r).reshape(shape)
     qc0_fit = f(rc, *popt_c).reshape(shape)
